@@ -557,6 +557,55 @@ def r1411(ctx):
         raise AnalysisError("R-14.11: no registration of an auxiliary file under an existence test found in _move_path")
 
 
+def r1413(ctx):
+    """Rows of order.txt / energy.txt are separated by construction. The readers split rows on
+    whitespace, and a format width is only a minimum: a value that fills its width (an energy of
+    -1e5, an order parameter of 1e5) touches its neighbour unless a literal separator is written.
+    The row builders of OrderFormatter / EnergyFormatter therefore combine the formatted fields
+    with `<sep>.join(...)`, sep containing whitespace, or every field format carries a literal
+    blank outside its replacement field."""
+    import re as _re
+    rid = "R-14.13"
+    tree = ctx.tree
+    targets = [("OrderFormatter", "format_data"), ("EnergyFormatter", "apply_format")]
+    for cname, fname in targets:
+        cls = tree.cls(FORMATTER, cname)
+        f = next((x for x in cls.body if isinstance(x, FUNC) and x.name == fname), None)
+        if f is None:
+            raise AnalysisError(f"R-14.13: {cname}.{fname} not found")
+        fl = flow_of(f)
+        rets = [r for r in walk_local(f) if isinstance(r, ast.Return) and r.value is not None]
+        if not rets:
+            raise AnalysisError(f"R-14.13: {cname}.{fname} returns nothing")
+        for r in rets:
+            v = r.value
+            if isinstance(v, ast.Name):
+                stores = [d for d, sfx in fl.rd(v.id, fl.cfg.node_of(r)) if not sfx]
+                joins = [d for d in stores if d.kind == "assign" and isinstance(d.value, ast.Call) and isinstance(d.value.func, ast.Attribute) and d.value.func.attr == "join"]
+                if len(stores) == 1 and joins:
+                    v = joins[0].value
+            if isinstance(v, ast.Call) and isinstance(v.func, ast.Attribute) and v.func.attr == "join" and isinstance(v.func.value, ast.Constant) and isinstance(v.func.value.value, str):
+                if v.func.value.value and v.func.value.value.strip() == "":
+                    ctx.ok(rid, r, f"{cname}.{fname}: the formatted fields are joined with the separator {v.func.value.value!r}")
+                else:
+                    ctx.bad(rid, r, f"{cname}.{fname} joins the formatted fields with {v.func.value.value!r}, which contains no whitespace: the readers split rows on whitespace", construct=f"{cname}.{fname}: separator {v.func.value.value!r}")
+                continue
+            # string concatenation of formatted fields: every field format needs its own literal blank
+            fmts = []
+            for st in cls.body:
+                if isinstance(st, ast.Assign) and len(st.targets) == 1 and isinstance(st.targets[0], ast.Name) and st.targets[0].id.endswith("_FMT"):
+                    fmts += [c.value for c in ast.walk(st.value) if isinstance(c, ast.Constant) and isinstance(c.value, str)]
+            concat = isinstance(v, (ast.Name, ast.BinOp, ast.JoinedStr))
+            if concat and fmts:
+                bare = [s_ for s_ in fmts[1:] if _re.sub(r"\{[^}]*\}", "", s_).strip(" ") == _re.sub(r"\{[^}]*\}", "", s_) and " " not in _re.sub(r"\{[^}]*\}", "", s_)]
+                if bare:
+                    ctx.bad(rid, r, f"{cname}.{fname} concatenates the formatted fields without a separator (field formats {bare[:2]} carry no literal blank; a width is only a minimum): a value that fills its column fuses with the previous one, read_some_lines skips the row as malformed, and the loaded path is shorter than the stored one with frames, order parameters and energies mis-paired", construct=f"{cname}.{fname}: fields concatenated without separator")
+                else:
+                    ctx.ok(rid, r, f"{cname}.{fname}: every field format carries a literal blank")
+                continue
+            raise AnalysisError(f"R-14.13: how {cname}.{fname} combines its fields (`{short(v, 50)}`) is not one of the modelled forms (cannot decide)")
+
+
 def run(ctx):
     ctx.rule("R-14.5", "path-file writers write values as they are: 0.0 is never mistaken for a missing value", floor=1)
     ctx.rule("R-14.7", "the text files of a stored path are opened for writing from scratch (load_path reads the first block only)", floor=1)
@@ -569,6 +618,8 @@ def run(ctx):
     from . import c06 as _c06
     from .shared import RuleProxy as _RP14
     ctx.attempt(_c06.r64, _RP14(ctx, "R-14.12", " (entries inherited from another run name `load/<n>/accepted/<file>` relative to the working directory: the next replacement deletes the files of a same-numbered live path)"))
+    ctx.rule("R-14.13", "rows of order.txt / energy.txt are whitespace separated by construction (explicit separator between the formatted fields; a width is only a minimum)", floor=2)
+    ctx.attempt(r1413, ctx)
     ctx.attempt(r141, ctx)
     ctx.attempt(r142, ctx)
     ctx.attempt(r143, ctx)
@@ -589,6 +640,8 @@ def run(ctx):
 
 
 VARIANTS = [
+    B("c14-energy-row-separator-folded-into-width", FORMATTER, '    ENERGY_FMT = ["{:>10d}"] + 5 * ["{:>14.6f}"]', '    ENERGY_FMT = ["{:>10d}"] + 5 * ["{:>15.6f}"]', "R-14.13", control=True, also=[(FORMATTER, '        return " ".join(towrite)', '        return "".join(towrite)')], why="seeded C14_k"),
+    K("c14-keep-energy-row-separator-local", FORMATTER, '        return " ".join(towrite)', '        row = " ".join(towrite)\n        return row'),
     B("c14-delete-queue-shared-between-instances", REPEX, "    traj_data: dict = {}\n", "    traj_data: dict = {}\n    pn_olds: dict = {}\n", "R-14.12", control=True, also=[(REPEX, "        self.pn_olds = {}\n", "")], why="seeded C14_j"),
     K("c14-keep-delete-queue-declared-and-rebound", REPEX, "    traj_data: dict = {}\n", "    traj_data: dict = {}\n    pn_olds: dict = {}\n"),
     B("c14-aux-file-registered-under-trajectory-key", FORMATTER, "                        source[fpath] = os.path.join(target_dir, new_fname)", "                        source[source_file] = os.path.join(target_dir, new_fname)", "R-14.11", control=True, why="seeded C14_i"),
